@@ -111,6 +111,16 @@ def centroid_1dg(data, error=None, mask=None):
 
     centroid = []
     for (data_i, weights_i) in zip(xy_data, xy_weights, strict=True):
+        # normalize the data and weights so that the fit (whose
+        # termination tolerances are absolute) does not depend on the
+        # overall scale of the data; the centroid is invariant to both
+        scale = np.max(np.abs(data_i))
+        if scale > 0 and np.isfinite(scale):
+            data_i = data_i / scale
+        wscale = np.max(weights_i)
+        if wscale > 0 and np.isfinite(wscale):
+            weights_i = weights_i / wscale
+
         params_init = _gaussian1d_moments(data_i)
         g_init = Gaussian1D(*params_init)
         x = np.arange(data_i.size)
@@ -260,6 +270,16 @@ def centroid_2dg(data, error=None, mask=None):
     mask = data.mask
     data.fill_value = 0.0
     data = data.filled()
+
+    # normalize the data and weights so that the fit (whose termination
+    # tolerances are absolute) does not depend on the overall scale of
+    # the data; the centroid is invariant to both
+    scale = np.max(np.abs(data))
+    if scale > 0 and np.isfinite(scale):
+        data = data / scale
+    wscale = np.max(weights)
+    if wscale > 0 and np.isfinite(wscale):
+        weights = weights / wscale
 
     # Subtract the minimum of the data to make the data values positive.
     # This prevents issues with the moment estimation in data_properties.
